@@ -238,6 +238,16 @@ def _work_misc(task):
     return acc
 
 
+
+def _disturb_task(_):
+    from ..explore import disturb
+
+    acc = Acc()
+    acc.count("disturbance_rounds", 7)
+    for core, detail in disturb.differential('parse-results', disturb.parse_battery):
+        acc.violation(core, {"disturb": True}, detail)
+    return acc
+
 def run(tier, seed):
     N, D = BOUND[tier], DEPTH[tier]
     t_soup = [("classes",) + t for t in G.tasks(len(G.TOKEN_CLASSES), N, parts_per_len=128)]
@@ -258,6 +268,7 @@ def run(tier, seed):
     for core, detail in c12.check_session(NS, "parse"):
         a4.violation(core.replace("long-session", "sticky-long-session"), {"part": "S", "session": NS}, detail)
     acc = merge_all([a1, a2, a3, a4])
+    acc.merge(par.run_fresh(_disturb_task, None))  # differential: a fixed battery before / after unrelated calls
     cov = {
         "states": a3.n["histories"] + a1.n["parses"] + a2.n["parses"],
         "transitions": a3.n["steps"] + a1.n["parses"] + a2.n["parses"],
@@ -279,6 +290,9 @@ def run(tier, seed):
 
 
 def replay(case):
+    if isinstance(case, dict) and case.get("disturb"):
+        from ..explore import disturb
+        return disturb.differential('parse-results', disturb.parse_battery)
     watchdog.install()
     if case["part"] == "A" and case.get("long"):
         text = case["text"]
